@@ -560,7 +560,8 @@ def main(verif, argv):
         steps = []
         for name, flags in (("core", []), ("alloc", ["--features", "tz-alloc"]), ("std", ["--features", "tz-std"])):
             steps.append((["cargo", "build", "--offline", "--release"] + flags + ["--target-dir", os.path.join(verif, "target", f"feat-{name}")], os.path.join(verif, "featsim"), None))
-        steps.append((["cargo", "build", "--offline"], os.path.join(verif, "autotraits"), None))
+        for fl in ([], ["--no-default-features", "--features", "alloc"], ["--no-default-features"]):
+            steps.append((["cargo", "build", "--offline"] + fl, os.path.join(verif, "autotraits"), None))
         steps.append((["cargo", "+nightly", "build", "--offline", "--target-dir", os.path.join(verif, "target", "nightly")], os.path.join(verif, "autotraits-nightly"), None))
         steps.append((["cargo", "+nightly", "miri", "run", "--offline", "--target-dir", os.path.join(verif, "target", "miri"), "--", "0", "1", "1"], os.path.join(verif, "tzsim-miri"), {"MIRIFLAGS": "-Zmiri-seed=0"}))
         for guard in ("off", "on"):
